@@ -2955,7 +2955,9 @@ def upgrade_programs() -> Iterator[tuple[dict, str]]:
     conversion route `Graph.with_opset(newer)`: the node inside an If branch, a Loop body, a Loop body inside an
     If branch, and (control) in the main graph.  Yields (prog, tag)."""
     V, B_, S = ty("i64", [N]), ty("bool", []), ty("i64", [])
-    for place in ("main", "if", "loop", "if-loop"):
+    for place in ("main", "if", "loop", "if-loop", "main/equal", "if/equal", "loop/equal", "if-loop/equal"):
+        equal = place.endswith("/equal")  # Split without sizes: at 18 the converter has to add `num_outputs`
+        place = place.split("/")[0]
         nodes: list[dict] = []
 
         def add(op, ins=(), subs=(), attrs=None, tys=()):
@@ -2968,6 +2970,9 @@ def upgrade_programs() -> Iterator[tuple[dict, str]]:
         sizes = add("Constant", attrs={"value": [1, 2], "uid": 1, "layout": "C"}, tys=[ty("i64", [2])])
 
         def swap(base):
+            if equal:
+                sp = add("Split", [base, None], attrs={"axis": 0, "outputs": N}, tys=[ty("i64", [1])] * N)
+                return (add("Concat", [(sp, 2), (sp, 0), (sp, 1)], attrs={"axis": 0}, tys=[V]), 0)
             sp = add("Split", [base, (sizes, 0)], attrs={"axis": 0, "outputs": 2}, tys=[ty("i64", [1]), ty("i64", [2])])
             return (add("Concat", [(sp, 1), (sp, 0)], attrs={"axis": 0}, tys=[V]), 0)
 
@@ -2989,7 +2994,7 @@ def upgrade_programs() -> Iterator[tuple[dict, str]]:
             out = loop((x, 0))
         else:
             out = iff(loop((x, 0)), (x, 0))
-        yield {"nodes": nodes, "outputs": [list(out)], "opset": 17}, place
+        yield {"nodes": nodes, "outputs": [list(out)], "opset": 17}, place + ("/equal" if equal else "")
 
 
 RETYPE_SAFE = {"arg", "Add", "Sub", "Mul", "Neg", "Identity", "If", "Loop", "Scan"}
